@@ -424,6 +424,8 @@ Inductive outcome :=
 | RejectedByRun              (* RunE returned an error before building the Pod configuration *)
 | Started (c : started).     (* every check passed: the manager would be started with [c] *)
 
+Definition stage_started (o : outcome) : bool := match o with Started _ => true | _ => false end.
+
 (* a string flag with a validator: absent keeps the default, present must validate *)
 Definition sflag (validator : str -> bool) (dflt : str) (a : option str) : option str :=
   match a with
